@@ -21,7 +21,10 @@
    graph: nodes separated by ';', node i = i-th: P<a>.<d> | V<i>.<j>... ("V" = empty vector) | L<obj>
    ops (separated by ';'): s<k>:<v>  d<k>  c  u<k>:<d>  k  x   (decimal key index, hex value); c = continue on a copy and keep
    the original as `the other' table, k = keep a copy aside, x = swap the two; per op the dump of the current table and,
-   after '&', of the other one *)
+   after '&', of the other one; round 4: e = no-op (an update whose procedure raised), E<k> = update! without default
+     cdel <kind> <keys> <cells> <k>    -> addresses (position in the given chain) of the chain after sexp_hash_table_delete
+     crelink <kind> <keys> <b0|b1|..>  -> per new bucket the old spine addresses (numbered bucket by bucket) after the RELINKING regrow
+     cregrow <kind> <keys> <b0|b1|..>  -> per new bucket the cells k:v after the functional regrow *)
 open Model
 open Common
 
@@ -70,10 +73,18 @@ let parse_ops (s : string) : hop list =
       | 'c' -> HCopy
       | 'k' -> HKeep
       | 'x' -> HSwap
+      | 'e' -> HNop
+      | 'E' -> HUpdP (nat_of_int (int_of_string body))
       | _ -> failwith ("op " ^ t)) (String.split_on_char ';' s)
 
 let str_alist l = String.concat "," (List.map (fun (k, v) -> string_of_int (int_of_nat k) ^ ":" ^ hex_of_z v) l)
 let str_lookups l = String.concat "," (List.map (function None -> "-" | Some v -> hex_of_z v) l)
+(* pointer-level chain requests (round 4): cells "k:v,k:v" ("-" = empty chain), buckets separated by '|' *)
+let parse_cells (s : string) : (nat * z) list =
+  if s = "-" || s = "" then [] else
+  List.map (fun t -> match String.split_on_char ':' t with
+      | [k; v] -> (nat_of_int (int_of_string k), z_of_hex v) | _ -> failwith "cell") (String.split_on_char ',' s)
+let str_addrs l = if l = [] then "-" else String.concat "," (List.map (fun a -> string_of_int (int_of_nat a)) l)
 let str_eres = function EFalse -> "F" | EFuel -> "U" | EBound b -> "B" ^ hex_of_z b
 
 let parse_graph (s : string) : obj node list =
@@ -108,6 +119,17 @@ let handle = function
       let r = map_hist cs (parse_ops ops) in
       String.concat "|" (List.map (fun st -> String.concat "&" (List.map (fun ((sz, al), lk) ->
           hex_of_z sz ^ "/" ^ str_alist al ^ "/" ^ str_lookups lk) st)) r)
+  | ["cdel"; kind; keys; cells; k] ->
+      let ks = List.map parse_obj (String.split_on_char ';' keys) in
+      (match q_chain_delete (nat_of_int (int_of_string kind)) ks (parse_cells cells) (nat_of_int (int_of_string k)) with
+       | Some l -> str_addrs l | None -> "NONE")
+  | ["crelink"; kind; keys; bs] ->
+      let ks = List.map parse_obj (String.split_on_char ';' keys) in
+      (match q_regrow_relink (nat_of_int (int_of_string kind)) ks (List.map parse_cells (String.split_on_char '|' bs)) with
+       | Some l -> String.concat "|" (List.map str_addrs l) | None -> "NONE")
+  | ["cregrow"; kind; keys; bs] ->
+      let ks = List.map parse_obj (String.split_on_char ';' keys) in
+      String.concat "|" (List.map str_alist (q_regrow_cells (nat_of_int (int_of_string kind)) ks (List.map parse_cells (String.split_on_char '|' bs))))
   | f -> "ERR unknown request " ^ String.concat " " f
 
 let () = serve handle
